@@ -243,10 +243,10 @@ func withValueCalls(f *ssa.Function, keyType string) map[*ssa.Call]int64 {
 func edgeGuarded(pred, succ *ssa.BasicBlock, from ssa.Instruction, fact EdgePred) bool {
 	term := lastInstr(pred)
 	if iff, ok := term.(*ssa.If); ok && pred.Succs[0] != pred.Succs[1] {
-		if pred.Succs[0] == succ && fact(iff.Cond, true) {
+		if pred.Succs[0] == succ && applyCut(fact, iff.Cond, true) {
 			return true
 		}
-		if pred.Succs[1] == succ && fact(iff.Cond, false) {
+		if pred.Succs[1] == succ && applyCut(fact, iff.Cond, false) {
 			return true
 		}
 	}
@@ -254,3 +254,37 @@ func edgeGuarded(pred, succ *ssa.BasicBlock, from ssa.Instruction, fact EdgePred
 }
 
 func constantInt(k int64) constant.Value { return constant.MakeInt64(k) }
+
+// allOriginsAfter is allOrigins restricted to the paths that pass instruction `from`: when v is a phi, only the
+// incoming edges whose predecessor can be reached after `from` are considered (the other edges carry the value of
+// paths that never executed `from`). Nested phis are resolved the same way.
+func allOriginsAfter(f *ssa.Function, from ssa.Instruction, v ssa.Value, preds ...OPred) (bool, *Origin) {
+	return allOriginsAfterN(f, from, v, 4, preds...)
+}
+
+func allOriginsAfterN(f *ssa.Function, from ssa.Instruction, v ssa.Value, depth int, preds ...OPred) (bool, *Origin) {
+	phi, ok := v.(*ssa.Phi)
+	if !ok || depth == 0 {
+		return allOrigins(v, preds...)
+	}
+	considered := 0
+	for i, e := range phi.Edges {
+		pred := phi.Block().Preds[i]
+		last := lastInstr(pred)
+		after := from.Block() == pred && instrIndex(from) < len(pred.Instrs) || pathExists(f, from, last, nil, nil)
+		if !after {
+			continue
+		}
+		if e == ssa.Value(phi) {
+			continue
+		}
+		considered++
+		if ok, bad := allOriginsAfterN(f, from, e, depth-1, preds...); !ok {
+			return false, bad
+		}
+	}
+	if considered == 0 {
+		return allOrigins(v, preds...)
+	}
+	return true, nil
+}
